@@ -96,7 +96,7 @@ func (m *Mutex) Lock() {
 	}
 }
 func (m *Mutex) TryLock() bool { simrt.Yield(); return m.mu.TryLock() }
-func (m *Mutex) Unlock()       { m.mu.Unlock(); simrt.Unblock(unsafe.Pointer(m)) }
+func (m *Mutex) Unlock()       { m.mu.Unlock(); simrt.Unblock(unsafe.Pointer(m)); simrt.AfterUnlock() }
 
 type RWMutex struct{ mu sync.RWMutex }
 
@@ -106,14 +106,18 @@ func (m *RWMutex) Lock() {
 		simrt.BlockOn(unsafe.Pointer(m))
 	}
 }
-func (m *RWMutex) Unlock() { m.mu.Unlock(); simrt.Unblock(unsafe.Pointer(m)) }
+func (m *RWMutex) Unlock() { m.mu.Unlock(); simrt.Unblock(unsafe.Pointer(m)); simrt.AfterUnlock() }
 func (m *RWMutex) RLock() {
 	simrt.Yield()
 	for !m.mu.TryRLock() {
 		simrt.BlockOn(unsafe.Pointer(m))
 	}
 }
-func (m *RWMutex) RUnlock()             { m.mu.RUnlock(); simrt.Unblock(unsafe.Pointer(m)) }
+func (m *RWMutex) RUnlock() {
+	m.mu.RUnlock()
+	simrt.Unblock(unsafe.Pointer(m))
+	simrt.AfterUnlock()
+}
 func (m *RWMutex) TryLock() bool        { simrt.Yield(); return m.mu.TryLock() }
 func (m *RWMutex) TryRLock() bool       { simrt.Yield(); return m.mu.TryRLock() }
 func (m *RWMutex) RLocker() sync.Locker { return (*rlocker)(m) }
